@@ -231,8 +231,8 @@ func (s *c12Sig) String() string {
 }
 
 type c12Step struct {
-	mode    byte // U F O G
-	wf      byte // fork container type of a wire object: a c d e (0 for G)
+	mode    byte     // U F O G
+	wf      byte     // fork container type of a wire object: a c d e (0 for G)
 	boot    *c12Boot // mode 'B': bootstrap() again on the same client
 	force   bool
 	now     uint64
@@ -739,16 +739,16 @@ func c12RandBits(r *Rng, n int) []byte {
 }
 
 type c12Gen struct {
-	boot0 *c12Boot // the bootstrap the history started from (re-bootstrap steps use it again)
-	forceSc   string // matrix cases: scenario, entry point and fork container are fixed
+	boot0     *c12Boot // the bootstrap the history started from (re-bootstrap steps use it again)
+	forceSc   string   // matrix cases: scenario, entry point and fork container are fixed
 	forceMode byte
 	forceWf   byte
-	c      *Ctx
-	run    *c12Runner
-	chain  map[uint64]int // period -> committee index (the honest chain's committee of that period)
-	steps  []c12Step
-	obs    []string
-	truths []string
+	c         *Ctx
+	run       *c12Runner
+	chain     map[uint64]int // period -> committee index (the honest chain's committee of that period)
+	steps     []c12Step
+	obs       []string
+	truths    []string
 }
 
 func (g *c12Gen) commFor(p uint64) int {
@@ -1499,11 +1499,12 @@ func c12Matrix(c *Ctx, keys *c12Keys) {
 }
 
 // c12Scripts: two stateful shapes that random histories reach too rarely.
-//  A. a store that knows its next committee is rotated by a FINALITY-ONLY update (no next committee on the wire), then receives
-//     updates one further period ahead signed by the committee it now holds as current: the period rule must reject them, and
-//     the store must show no next committee after the rotation.
-//  B. the store's committee has one undecodable (resp. identity) key: an update whose bitmap claims that member while the
-//     aggregate is signed by all the others must be rejected; with that member's bit cleared the same update is valid.
+//
+//	A. a store that knows its next committee is rotated by a FINALITY-ONLY update (no next committee on the wire), then receives
+//	   updates one further period ahead signed by the committee it now holds as current: the period rule must reject them, and
+//	   the store must show no next committee after the rotation.
+//	B. the store's committee has one undecodable (resp. identity) key: an update whose bitmap claims that member while the
+//	   aggregate is signed by all the others must be rejected; with that member's bit cleared the same update is valid.
 func c12Scripts(c *Ctx, keys *c12Keys) {
 	r := c.Rng
 	build := func(g *c12Gen, sc string, mode byte, accept func(s *c12Step) bool) (c12Step, bool) {
